@@ -1,6 +1,6 @@
 """C04 — front end and compile entry points are total on arbitrary text.
 
-P: theorems of coq/theories/Props/C04.v over Parser/Model.v (every token list): no OutOfFuel with fuel 24*(n+1)
+P: theorems of coq/theories/Props/C04.v over Parser/Model.v (every token list): no OutOfFuel with fuel 12*(n+1)
    (C04_parse_progress), no builder panic, error indices in range, CST leaves = 0..n-1 (C13_cst_leaves).
    (lexer / preparser totality: Props/C13.v.)
 C: extracted Parser model vs the real parse_cst (CST s-expression, ParserError list, kind rewrites) on token-kind
@@ -382,13 +382,53 @@ class Sides:
     def __init__(self, front, model):
         self.front, self.model = front, model
 
-    def cst(self, texts):
+    def cst_once(self, texts, sync=False):
         inp = "\n".join(utf8(t).hex() for t in texts) + "\n"
-        p = subprocess.run([self.front, "cst"], input=inp.encode(), stdout=subprocess.PIPE, stderr=subprocess.DEVNULL, timeout=3000)
-        lines = p.stdout.decode().split("\n")
-        if p.returncode != 0 or len(lines) < len(texts):
-            return None
-        return [json.loads(l) for l in lines[:len(texts)]]
+        try:
+            p = subprocess.run([self.front, "cst", str(CASE_LIMIT_S), "512"] + (["sync"] if sync else []), input=inp.encode(),
+                               stdout=subprocess.PIPE, stderr=subprocess.DEVNULL, timeout=600 + len(texts) // 20)
+            rc, so = p.returncode, p.stdout.decode(errors="replace")
+        except subprocess.TimeoutExpired as ex:
+            rc, so = 124, (ex.stdout or b"").decode(errors="replace")
+        out, timed = [], None
+        for l in so.split("\n"):
+            if l.startswith("T "):
+                timed = int(l[2:])
+            elif l.startswith("{"):
+                try:
+                    out.append(json.loads(l))
+                except ValueError:
+                    break
+        return rc, out, timed
+
+    def cst(self, texts):
+        """-> (answers (None for an input that killed / hung the harness), [(index, 'timeout'|'abort')])"""
+        res = [None] * len(texts)
+        bad = []
+        todo = list(range(len(texts)))
+        while todo and len(bad) < 3:
+            rc, out, timed = self.cst_once([texts[i] for i in todo])
+            if rc == 0 and len(out) >= len(todo):
+                for i, d in zip(todo, out):
+                    res[i] = d
+                return res, bad
+            if timed is None:
+                # died without a watchdog message: rerun line-synchronised to find the first missing answer
+                rc, out, timed = self.cst_once([texts[i] for i in todo], sync=True)
+                if rc == 0 and len(out) >= len(todo):
+                    for i, d in zip(todo, out):
+                        res[i] = d
+                    return res, bad
+                k = timed if timed is not None else len(out)
+                kind = "timeout" if timed is not None else "abort"
+            else:
+                k, kind = timed, "timeout"
+            if k >= len(todo):
+                bad.append((todo[-1], "abort"))
+                return res, bad
+            bad.append((todo[k], kind))
+            todo = todo[:k] + todo[k + 1:]
+        return res, bad
 
     def run_model(self, impl, fuel=None):
         if not self.model:
@@ -449,11 +489,16 @@ def oracle_run(front, items, limit=CASE_LIMIT_S, stack=STACK_MIB, workers=None):
     """items: list of (id, text). Supervised workers. -> {id: result dict | {"crash": ..} | {"timeout": True}}"""
     workers = workers or max(2, min(NPROC, 14))
     res = {}
+    shared = {"timeouts": 0}
 
     def chunk_run(chunk):
         out = {}
         todo = list(chunk)
         while todo:
+            if shared["timeouts"] >= 4:
+                for i, _ in todo:
+                    out[i] = {"skipped": True}      # many hangs already: stop exploring (the run reports them)
+                break
             inp = "".join(f"{i} {utf8(t).hex()}\n" for i, t in todo)
             try:
                 p = subprocess.run([front, "oracle", str(limit), str(stack)], input=inp.encode(), stdout=subprocess.PIPE,
@@ -461,10 +506,12 @@ def oracle_run(front, items, limit=CASE_LIMIT_S, stack=STACK_MIB, workers=None):
                 rc, so = p.returncode, p.stdout.decode(errors="replace")
             except subprocess.TimeoutExpired as ex:
                 rc, so = 124, (ex.stdout or b"").decode(errors="replace")
-            begun, done, timed = None, set(), None
+            begun, done, timed, stage = None, set(), None, "?"
             for line in so.split("\n"):
                 if line.startswith("B "):
                     begun = int(line[2:])
+                elif line.startswith("S "):
+                    stage = line[2:].strip()
                 elif line.startswith("R "):
                     _, i, js = line.split(" ", 2)
                     out[int(i)] = json.loads(js)
@@ -473,10 +520,11 @@ def oracle_run(front, items, limit=CASE_LIMIT_S, stack=STACK_MIB, workers=None):
                     timed = int(line[2:])
             ids = [i for i, _ in todo]
             if timed is not None and timed not in done:
-                out[timed] = {"timeout": True}
+                out[timed] = {"timeout": True, "stage": stage}
+                shared["timeouts"] += 1
                 todo = todo[ids.index(timed) + 1:]
             elif begun is not None and begun not in done:
-                out[begun] = {"crash": f"worker died (exit status {rc}) while processing this input"}
+                out[begun] = {"crash": f"worker died (exit status {rc}) in {stage}", "stage": stage}
                 todo = todo[ids.index(begun) + 1:]
             elif len(done) < len(todo):
                 # died between cases / before the first: retry the remainder once, else give up on it
@@ -532,16 +580,23 @@ def run(ck):
     stats = {"cst_cases": 0, "model_compared": 0, "nontrivial": 0, "with_errors": 0, "model_unmodelled": 0, "tokens": 0,
              "seen_kinds": set(), "seen_nodes": set()}
 
+    hangs = []           # (origin, text, 'timeout'|'abort') of parse_cst itself
+    state = {"stop": False}
+
     def cst_phase(origin, texts, sample_every=0):
         t0 = time.time()
-        impl = S.cst(texts)
-        if impl is None:
-            crashed.append(origin + " (front_run cst)")
-            return
+        impl, bad_idx = S.cst(texts)
+        for (i, kind) in bad_idx:
+            hangs.append((origin, texts[i], kind))
+        if len(bad_idx) >= 3:
+            state["stop"] = True      # the parser hangs / dies on many inputs: stop exploring, report
+        impl = [d if d is not None else {"skipped": True} for d in impl]
         mod = S.run_model(impl)
         if mod is None and exe_m:
             crashed.append(origin + " (model driver)")
         for n, (t, d) in enumerate(zip(texts, impl)):
+            if "skipped" in d:
+                continue
             stats["cst_cases"] += 1
             if "k" in d and "i" in d:
                 d["_iset"] = set(d["i"])
@@ -561,7 +616,7 @@ def run(ck):
                 m = mod[n]
                 if "fuel" in m or "panic" in m:
                     if len(disagreements) < 50:
-                        disagreements.append((origin, t, json.dumps(m), "model: " + ("OutOfFuel with fuel 24*(n+1)" if "fuel" in m else "Panic")))
+                        disagreements.append((origin, t, json.dumps(m), "model: " + ("OutOfFuel with fuel 12*(n+1)" if "fuel" in m else "Panic")))
                 elif canon_model(m, d) != canon_impl(d):
                     if len(disagreements) < 50:
                         disagreements.append((origin, t, json.dumps(canon_model(m, d))[:1500], json.dumps(canon_impl(d))[:1500]))
@@ -589,8 +644,14 @@ def run(ck):
             if r is None:
                 oracle_bad.append((origin, t, "no-answer", "the supervised worker gave no answer for this input"))
                 continue
+            if "skipped" in r:
+                ostats["oracle_cases"] -= 1
+                continue
             if "timeout" in r:
-                oracle_bad.append((origin, t, "timeout", f"an entry point did not return within {limit} s"))
+                oracle_bad.append((origin, t, "timeout", f"{r.get('stage', '?')} did not return within {limit} s"))
+                state["timeouts"] = state.get("timeouts", 0) + 1
+                if state["timeouts"] >= 6:
+                    state["stop"] = True
                 continue
             if "crash" in r:
                 oracle_bad.append((origin, t, "abort", r["crash"]))
@@ -616,8 +677,11 @@ def run(ck):
         timing[origin + ":oracle"] = round(timing.get(origin + ":oracle", 0) + time.time() - t0, 1)
 
     def both(origin, texts, sample_every=0, oracle=True):
+        if state["stop"]:
+            ck.coverage.setdefault("phases_skipped_after_repeated_hangs", []).append(origin)
+            return
         cst_phase(origin, texts, sample_every)
-        if oracle:
+        if oracle and not state["stop"]:
             oracle_phase(origin, texts)
 
     # ---- replay / corpus first ----
@@ -655,7 +719,7 @@ def run(ck):
 
     # ---- random kind sequences of length 3..12 ----
     rng = ck.rng.fork("random-kinds")
-    n_rand = 10000 if tier == "quick" else 60000
+    n_rand = 20000 if tier == "quick" else 100000
     texts = []
     for _ in range(n_rand):
         L = rng.range(3, 12)
@@ -665,7 +729,7 @@ def run(ck):
     both("random-kinds", texts, sample_every=n_rand)
     # ---- grammar-generated programs and token-level mutations of them ----
     rng = ck.rng.fork("grammar")
-    n_gen = 10000 if tier == "quick" else 60000
+    n_gen = 20000 if tier == "quick" else 100000
     g = Gen(rng)
     texts = []
     for j in range(n_gen):
@@ -681,12 +745,12 @@ def run(ck):
     ck.coverage["repo_mmm_files"] = len(files)
     both("repo-file", [s for _, s in files], sample_every=max(1, len(files)))
     rng = ck.rng.fork("mutations")
-    nmut = 3 if tier == "quick" else 12
+    nmut = 6 if tier == "quick" else 20
     mut = [mutate_text(rng, s) for _, s in files for _ in range(nmut)]
     both("repo-file-mutated", mut)
     ck.coverage["repo_file_mutations"] = len(mut)
     rng = ck.rng.fork("unicode")
-    n_uni = 4000 if tier == "quick" else 30000
+    n_uni = 8000 if tier == "quick" else 40000
     uni = [rand_unicode(rng, 14) for _ in range(n_uni)]
     both("random-unicode", uni, sample_every=n_uni)
     ck.coverage["random_unicode_texts"] = n_uni
@@ -712,12 +776,12 @@ def run(ck):
 
     # ---- model-only: the fuel bound is not vacuous (a smaller constant fails) ----
     if exe_m:
-        d = S.cst(["fn dsp(){ " + "(" * 60 + "1.0" + ")" * 60 + " }"])
-        if d:
-            lo = S.run_model(d, fuel=lambda n: 2 * (n + 1))
+        d, _ = S.cst(["fn dsp(){ " + "(" * 60 + "1.0" + ")" * 60 + " }"])
+        if d and d[0]:
+            lo = S.run_model(d, fuel=lambda n: 1 * (n + 1))
             hi = S.run_model(d)
-            ck.coverage["fuel_2n_runs_out_on_nested_parens"] = bool(lo and "fuel" in lo[0])
-            ck.coverage["fuel_24n_suffices_on_nested_parens"] = bool(hi and "s" in hi[0])
+            ck.coverage["fuel_1n_runs_out_on_nested_parens"] = bool(lo and "fuel" in lo[0])
+            ck.coverage["fuel_12n_suffices_on_nested_parens"] = bool(hi and "s" in hi[0])
 
     ck.coverage["evaluations"] = stats["cst_cases"] + ostats["oracle_cases"]
     ck.coverage["distinct_nontrivial"] = stats["nontrivial"]
@@ -739,6 +803,11 @@ def run(ck):
         d.update(extra)
         return d
 
+    hangs.sort(key=lambda x: len(x[1]))
+    for (origin, t, kind) in hangs[:3]:
+        ck.violation(f"parse_cst does not return ({kind}: " + (f"no answer within {CASE_LIMIT_S} s" if kind == "timeout" else "the process died") + ")",
+                     replay_obj(origin, t, {"what": kind, "entry_point": "parser::parse_cst"}))
+    ck.coverage["parse_cst_hangs_or_aborts"] = len(hangs)
     oracle_bad.sort(key=lambda x: len(x[1]))
     seen_what = set()
     for (origin, t, what, detail) in oracle_bad:
@@ -760,7 +829,7 @@ def run(ck):
         ck.violation("Parser model and parse_cst disagree (no clause of the property fails on the explored inputs)",
                      replay_obj(origin, t, {"correspondence": "Parser.Model.parse vs parser::parse_cst", "model": m_, "implementation": i_,
                                             "disagreements": len(disagreements)}), no_input=True)
-    if (not proved or ck.broken) and not clause_fail and not disagreements and not crashed and not oracle_bad:
+    if (not proved or ck.broken) and not clause_fail and not disagreements and not crashed and not oracle_bad and not hangs:
         ck.violation("a proof obligation of Props/C04.v (or its translator) no longer checks", {"broken": ck.broken}, no_input=True)
     return finish(ck)
 
@@ -768,7 +837,7 @@ def run(ck):
 def finish(ck):
     ck.finish(
         explanation=("Parser/Model.v transcribes every function of cst_parser.rs (and the green-tree builder it drives) as procedures of a small command "
-                     "language interpreted with explicit fuel; Props/C04.v proves for EVERY token list: fuel 24*(n+1) suffices (no loop or recursive cycle "
+                     "language interpreted with explicit fuel; Props/C04.v proves for EVERY token list: fuel 12*(n+1) suffices (no loop or recursive cycle "
                      "without consuming a token), the builder never panics, every ParserError points at a token of the list, and the CST leaves are "
                      "exactly positions 0..n-1 in order. Binding powers, prefix operators, MAX_LOOKAHEAD, TokenKind and SyntaxKind are regenerated from "
                      "the Rust source on every run and every hand-transcribed function is pinned by hash. The model is tied to the code by comparing "
